@@ -28,6 +28,31 @@ pub fn commit_overlays(n: usize) -> RwLock<Vec<CommitOverlay>> {
 	RwLock::new(v)
 }
 
+/// One-byte RcValues whose content is also kept in a typed static Vec (C04.M): `RcValue::value` is stubbed to hand out the
+/// static copy. Reading the Vec header through the Arc's heap allocation loses its constant length under CBMC, and every
+/// `key.clone()` / comparison in BTreeIterator::iter_inner then runs on a symbolic length (two iterator calls over one tree
+/// key and one overlay entry did not finish in 20 minutes). The static copy has the same content by construction.
+pub const RCN: usize = 4;
+pub static mut RC_PTR: [*const Vec<u8>; RCN] = [std::ptr::null(); RCN];
+pub static mut RC_VEC: [Vec<u8>; RCN] = [Vec::new(), Vec::new(), Vec::new(), Vec::new()];
+pub static mut RC_N: usize = 0;
+pub fn rc_reset() { unsafe { RC_N = 0; } }
+pub fn rc_byte(b: u8) -> RcValue {
+	let mut v = Vec::with_capacity(1); v.push(b);
+	let r = RcValue::from(v);
+	let mut w = Vec::with_capacity(1); w.push(b);
+	unsafe { assert!(RC_N < RCN); RC_PTR[RC_N] = Arc::as_ptr(&r.0); RC_VEC[RC_N] = w; RC_N += 1; }
+	r
+}
+pub fn stub_rc_value(r: &RcValue) -> &Value {
+	unsafe {
+		let p = Arc::as_ptr(&r.0);
+		let mut j = 0;
+		while j < RCN { if j < RC_N && RC_PTR[j] == p { return &RC_VEC[j] } j += 1; }
+	}
+	&r.0
+}
+
 pub fn wc<S: Default>() -> WaitCondvar<S> { WaitCondvar { cv: Condvar::new(), work: Mutex::new(S::default()) } }
 
 pub fn mk_db(o: Options, ncols: usize, bg_err: bool) -> DbInner {
